@@ -98,6 +98,10 @@ class CMSSystem(System):
                     for h in (1, 2):
                         cfgs.append(dict(cls="hh", width=w, depth_=d, strat=strat, hitters=h, nkeys=4, depth=5 if quick else 6,
                                          amounts=[1, 2], seed=seed, cost=4))
+                    if strat == "table":
+                        # an amount of 0 is a legal add: the key is seen and tracked with whatever estimate comes back
+                        cfgs.append(dict(cls="hh", width=w, depth_=d, strat=strat, hitters=2, nkeys=3, depth=5 if quick else 6,
+                                         amounts=[0, 1], seed=seed, cost=4))
                     for t in (2, 3):
                         cfgs.append(dict(cls="st", width=w, depth_=d, strat=strat, threshold=t, nkeys=3, depth=5 if quick else 6,
                                          amounts=[1, 2], seed=seed, cost=4))
